@@ -120,11 +120,11 @@ def run_case(case):
                     inner = body[m1:m2]
                     if any(votes_free(l) for l in inner) and any(votes_free(l) for l in body[:m1] + body[m2:]):
                         files["nest%d.inc" % k] = inner
-                        body = body[:m1] + [" include 'nest%d.inc'" % k] + body[m2:]
+                        body = body[:m1] + [rng.choice([" include 'nest%d.inc'", " include'nest%d.inc'", ' INCLUDE "nest%d.inc"']) % k] + body[m2:]
                         nested = True
                 files[name] = body
                 q = rng.choice(["'", '"'])
-                main.append(rng.choice(["include ", "INCLUDE ", "  Include "]) + q + name + q)
+                main.append(rng.choice(["include ", "INCLUDE ", "  Include ", "include", "INCLUDE", " Include  "]) + q + name + q + rng.choice(["", "", "  ", " ! trailing comment"]))
                 pos = b
             main += lines[pos:]
             if not files:
